@@ -72,6 +72,9 @@ type OpS struct {
 	Opts   *Opts   `json:"opts,omitempty"`   // build
 	Arch   string  `json:"arch,omitempty"`   // build: "x64" "x86"
 	Format string  `json:"format,omitempty"` // build: the payload dialog's text
+	// build: the compilers behave like this for the duration of the request (f_test.go);
+	// only for a request that names an existing HTTP / SMB listener
+	Fault *StubFault `json:"fault,omitempty"`
 }
 
 type SrvH struct {
@@ -235,7 +238,59 @@ func genSrvH(t *rapid.T) *SrvH {
 			s.Ops = append(s.Ops, genBuildOp(t, unknownName()))
 		}
 	}
+	// FAULT: in 4 histories of 10 the compiler of ONE request for an existing HTTP / SMB
+	// listener misbehaves (end kind x output state uniformly); the requests after it run
+	// with the ordinary compiler again
+	if el := faultEligible(s); len(el) > 0 && rapid.IntRange(0, 9).Draw(t, "fault?") < 4 {
+		i := el[rapid.IntRange(0, len(el)-1).Draw(t, "fault-at")]
+		f := StubFault{Tool: "cc", Out: rapid.SampledFrom(faultOuts).Draw(t, "fault-out")}
+		switch rapid.IntRange(0, 2).Draw(t, "fault-end-kind") {
+		case 0:
+			f.End = "exit:0"
+			if f.Out == "complete" {
+				f.SlowMs = rapid.SampledFrom([]int{100, 200, 300}).Draw(t, "fault-slow-ms")
+				f.NoiseKB = rapid.SampledFrom([]int{0, 64, 1024}).Draw(t, "fault-noise-kb")
+			}
+		case 1:
+			f.End = rapid.SampledFrom(faultExits).Draw(t, "fault-exit")
+		default:
+			f.End = rapid.SampledFrom(faultSignals).Draw(t, "fault-signal")
+		}
+		s.Ops[i].Fault = &f
+	}
 	return s
+}
+
+// faultEligible: the build requests that name a HTTP / SMB listener existing at that moment.
+func faultEligible(s *SrvH) []int {
+	var m srvModel
+	var out []int
+	for i, op := range s.Ops {
+		switch op.K {
+		case "add":
+			if op.L != nil && m.accepts(*op.L) {
+				m.ls = append(m.ls, *op.L)
+			}
+		case "remove":
+			m.remove(op.Name)
+		case "build":
+			if j := m.find(op.Name); j >= 0 && m.ls[j].Kind != "ext" {
+				out = append(out, i)
+			}
+		}
+	}
+	return out
+}
+
+// setCompilers installs the compilers' behaviour (nil: the ordinary echo compiler).
+func (fx *srvFx) setCompilers(f *StubFault) {
+	for _, tool := range []string{"cc64", "cc86"} {
+		if f == nil {
+			writeStub(filepath.Join(fx.dir, tool), fmt.Sprintf(ccEchoScript, fx.logPath))
+		} else {
+			writeStub(filepath.Join(fx.dir, tool), stubText(f, fx.logPath, "outpath"))
+		}
+	}
 }
 
 // ---------------------------------------------------------------------------- fixture
@@ -745,7 +800,12 @@ func runSrv(s *SrvH, report func(*core.Violation)) {
 	var m srvModel
 	builtFor := map[string]int{}
 	editedSince := map[string]bool{}
+	faulty := false
 	for k, op := range s.Ops {
+		if faulty {
+			fx.setCompilers(nil) // the fault is lifted
+			faulty = false
+		}
 		switch op.K {
 		case "add":
 			if op.L == nil {
@@ -796,6 +856,12 @@ func runSrv(s *SrvH, report func(*core.Violation)) {
 				if e := expect(caseOf(m.ls[i], *op.Opts)); m.ls[i].Kind == "ext" || e.Grey || len(e.MustFail) > 0 {
 					before = compileDirsNow()
 				}
+			}
+			var fault *StubFault
+			if i := m.find(op.Name); op.Fault != nil && validFault(op.Fault) && op.Fault.Tool == "cc" && i >= 0 && m.ls[i].Kind != "ext" {
+				fault = op.Fault
+				fx.setCompilers(fault)
+				faulty = true
 			}
 			fx.operator(packager.Type.Gate.Type, packager.Type.Gate.Stageless, map[string]any{
 				"AgentType": "Demon", "Listener": op.Name, "Arch": op.Arch, "Format": op.Format, "Config": configJSON(*op.Opts, nil),
@@ -857,8 +923,14 @@ func runSrv(s *SrvH, report func(*core.Violation)) {
 			}
 			note := fmt.Sprintf(" [history step %d of %d through DispatchEvent: build %s %s requested for listener name %q (%s), %d earlier builds for that name, edited since: %v; other listeners at that moment: %s]",
 				k, len(s.Ops), op.Arch, op.Format, op.Name, class, builtFor[op.Name], editedSince[op.Name], strings.Join(others, " "))
+			if fault != nil {
+				note = " [the compiler of this request: " + fault.String() + "]" + note
+			}
 			wrap := func(v *core.Violation) {
 				v.Sig = "hist|dispatch|" + v.Sig
+				if fault != nil {
+					v.Sig += "|fault=" + fault.String()
+				}
 				v.Msg += note
 				report(v)
 			}
@@ -883,11 +955,19 @@ func runSrv(s *SrvH, report func(*core.Violation)) {
 				if len(e.MustFail) > 0 {
 					break // hand-written replay with an unencodable setting: sub-checks a and b judge those
 				}
-				if len(payloads) == 0 && !e.Grey && !settle() {
+				// a compiler that does not end with exit status 0 fails the build (HEAD: Run()
+				// returns an error for a non-zero status and for a signal): nothing is sent.  One
+				// that says 0 is believed; what it left at the -o path is sent if it is not empty.
+				failed := fault != nil && !fault.childOK()
+				believed := fault != nil && fault.childOK() && fault.Out != "complete"
+				if len(payloads) == 0 && !e.Grey && !failed && !believed && !settle() {
 					return
 				}
+				if len(payloads) > 0 && believed {
+					break // not judged: the compiler's own lie
+				}
 				if len(payloads) == 0 {
-					if !e.Grey {
+					if !e.Grey && !failed && !believed {
 						wrap(core.V("no-payload|"+class, "no payload reached the operator for an existing listener with an encodable configuration; console %v", tail(console, 4)))
 					}
 					break
@@ -1101,6 +1181,18 @@ func classifySrv(s *SrvH) core.Class {
 		cl.NonTrivial = true
 	}
 	label(fmt.Sprintf("dispatch-listeners:%d", maxCoexist))
+	el := map[int]bool{}
+	for _, i := range faultEligible(s) {
+		el[i] = true
+	}
+	for i, op := range s.Ops {
+		if op.K == "build" && op.Fault != nil && el[i] && validFault(op.Fault) && op.Fault.Tool == "cc" {
+			label(fmt.Sprintf("fault:child-process:compiler:%s+output-%s@dispatch-build", op.Fault.endKind(), op.Fault.Out))
+			if i+1 < len(s.Ops) {
+				label("fault-then-more-steps@dispatch")
+			}
+		}
+	}
 	for _, op := range s.Ops {
 		if op.K == "add" && op.L != nil && op.L.Kind == "http" {
 			for _, hl := range hostLabels(op.L.HTTP.Hosts) {
